@@ -89,7 +89,13 @@ AllGone == \A p \in DOMAIN peers : ~peers[p].open
         field as the bound, not the buffer's (lib/ipc_socket.c:qb_ipc_us_recv_at_most)
    KF3  socket transport: a negotiated maximum below the header size gives a
         receive buffer the 16-byte header peek does not fit in                *)
-KF1(t, mx, actual, hsz) == hsz < 0 \/ hsz > Min(actual, mx)
+(* is the request handed to the callback at all (unchanged tree), and which length field does the server see:
+   a shm chunk of at most 8 bytes does not contain the field (the server reads the ring behind it: zero in
+   the rings of this check, which never wrap); a datagram shorter than the header, or one whose field is 0,
+   is received as "0 bytes" and answered by a disconnect *)
+Deliv(t, actual, hsz) == IF t = SHM THEN actual > 0 ELSE actual >= HS /\ hsz # 0
+EffH(t, actual, hsz) == IF t = SHM /\ actual <= 8 THEN 0 ELSE hsz
+KF1(t, mx, actual, hsz) == LET e == EffH(t, actual, hsz) IN Deliv(t, actual, e) /\ (e < 0 \/ e > Min(actual, mx))
 KF2(t, mx, actual, hsz) == t = SOCK /\ actual >= HS /\ actual > mx /\ (hsz < 0 \/ hsz > mx)
 KF3(t, mx, actual, hsz) == t = SOCK /\ Min(actual, HS) > mx
 Skipped(t, mx, actual, hsz) == \/ "KF1" \in KFSkip /\ KF1(t, mx, actual, hsz)
